@@ -156,19 +156,44 @@ theorem reach_deref_safe {cells : List Cell} {o : Nat} (h0 : InitOK cells o) (ev
   obtain ⟨h1, h2⟩ := WF_append hwf
   exact deref_safe (reach_inv h0 evs h1) h2
 
-/-- **persistent ids are never reused**: along any history the counter only grows, every id of a
-later population was already there or was issued from the counter in between; hence an id that has
-been issued and is absent (removed, or a mother that divided) never appears again.  No hypothesis on
-the history is needed. -/
+/-- **persistent ids are never reused**: along any history the counter only grows; every cell of a
+later population either was already there with the same id (same object, same id) or carries an id issued from
+the counter in between; hence an id that has been issued and is absent (removed, or a mother that
+divided) never appears again.  No hypothesis on the history is needed. -/
 theorem ids_never_reused (evs : List IterEv) (s : State) :
     s.maxId ≤ (run code evs s).maxId ∧
-    (∀ id ∈ ids (run code evs s), id ∈ ids s ∨ (s.maxId ≤ id ∧ id < (run code evs s).maxId)) ∧
+    (∀ c' ∈ (run code evs s).cells, (∃ c ∈ s.cells, c.cellId = c'.cellId ∧ c.obj = c'.obj) ∨
+        (s.maxId ≤ c'.cellId ∧ c'.cellId < (run code evs s).maxId)) ∧
     (∀ id, id < s.maxId → id ∉ ids s → id ∉ ids (run code evs s)) := by
   have h := run_fresh code_as_modelled evs s
-  refine ⟨h.1, h.2, fun id hlt hnot hin => ?_⟩
-  rcases h.2 id hin with h' | ⟨h', _⟩
-  · exact hnot h'
+  have h2 : ∀ c' ∈ (run code evs s).cells, (∃ c ∈ s.cells, c.cellId = c'.cellId ∧ c.obj = c'.obj) ∨
+      (s.maxId ≤ c'.cellId ∧ c'.cellId < (run code evs s).maxId) := by
+    intro c' hc'
+    rcases h.2 (key c') (List.mem_map_of_mem hc') with h' | h'
+    · exact Or.inl (mem_keys.1 h')
+    · exact Or.inr h'
+  refine ⟨h.1, h2, fun id hlt hnot hin => ?_⟩
+  obtain ⟨c', hc', rfl⟩ := List.mem_map.1 hin
+  rcases h2 c' hc' with ⟨c, hc, h1, _⟩ | ⟨h', _⟩
+  · exact hnot (List.mem_map.2 ⟨c, hc, h1⟩)
   · omega
+
+/-- **an id designates one cell for ever**: if a cell of a later population carries the id of a cell of
+an earlier one, it is the same object (a daughter never inherits the id of its mother, a fresh cell
+never gets the id of a removed one) -/
+theorem id_designates_one_cell {s : State} (h : Inv s) (evs : List IterEv) :
+    ∀ c ∈ s.cells, ∀ c' ∈ (run code evs s).cells, c'.cellId = c.cellId → c'.obj = c.obj := by
+  intro c hc c' hc' hid
+  rcases (ids_never_reused evs s).2.1 c' hc' with ⟨c0, hc0, h1, h2⟩ | ⟨h', _⟩
+  · obtain ⟨i, hi⟩ := List.mem_iff_getElem?.1 hc
+    obtain ⟨j, hj⟩ := List.mem_iff_getElem?.1 hc0
+    have hij : i = j := nodup_map_inj h.j.idsNodup hi hj (by rw [h1, hid])
+    subst hij
+    rw [hi] at hj
+    simp only [Option.some.injEq] at hj
+    rw [← h2, ← hj]
+  · have := h.j.idsLt c hc
+    omega
 
 /-- the named points are the states after the corresponding calls of `run_iteration` in source order -/
 theorem stateAfter_eq (e : IterEv) (s : State) :
